@@ -2,9 +2,13 @@
   Driver op of the regenerated `Alarms.times` (ICal/Gen/BodiesAlarm.lean, tools/py2lean.py): the translator's own
   differential test for C14.
     body_al_times <arguments of al_times> -> as al_times: "ok" { "|" index ":" trig ";" acknowledged ";" is_active ";" trigger } | err:<E>
-  The state is built as for `al_times` (Driver/Alarm.lean); the times are computed by the translated `Alarms.times`
-  with the pieces of ICal/Model/AlarmPieces.lean, and what is shown of each alarm time is computed by the translated
-  `AlarmTime.acknowledged` / `is_active` / `trigger`.
+    body_al_state <arguments of al_times> -> "ok " abs ";" start ";" end ";" _start ";" _end ";" _last_ack ";" _snooze_until
+        (the three lists as comma separated indices into the component's alarms) | err:<E>
+  Everything is computed by translated code: the state by `Alarms.add_component` (with `set_parent`, `set_start`,
+  `set_end`, `acknowledge_until`, `snooze_until`, `add_alarm`) from the empty object, the explicit setter calls by the
+  translated setters, the times by `Alarms.times`, what is shown of each alarm time by `AlarmTime.acknowledged` /
+  `is_active` / `trigger`; the pieces are those of ICal/Model/AlarmPieces.lean.  The hand model's front end is only
+  asked whether the case is modelled at all (`unmodelled` for a non-ASCII RELATED value or an untabulated wall time).
 -/
 import ICal.Driver.Alarm
 import ICal.Driver.BodiesProto
@@ -24,13 +28,54 @@ private def encTup (as : List VAlarm) (x : Bodies.ATup) : String :=
     (match AlarmTime_is_active (alarm_acknowledged := ka) (last_ack := x.2.2.1) (snooze_until := x.2.2.2) (trigger_raw := x.2.1) (to_datetime := toDatetime) with | .ok true => "1" | .ok false => "0" | .error e => pyExcName e) ++ ";" ++
     (match AlarmTime_trigger (snooze_until := x.2.2.2) (trigger_raw := x.2.1) (to_datetime := toDatetime) with | .ok v => AlarmP.encTrig v | .error e => pyExcName e)
 
+/-- `Alarms(component)`, the explicit setter calls, `set_local_timezone`: all through the translated methods -/
+private def stateOf (args : List String) : Option ((Int → Int) × Bool × Py Bodies.Fields × List VAlarm) :=
+  match args with
+  | [p, st, en, as, ltz, _tag] =>
+    match AlarmP.decParent p, AlarmP.decTrigO st, AlarmP.decTrigO en, AlarmP.decAlarms as, AlarmP.decLocal ltz with
+    | some (p, ackCall, snoozeCall), some st, some en, some as, some ltz =>
+      let c : Bodies.CompView := ⟨p, st, en, as⟩
+      let f : Py Bodies.Fields := do
+        let f ← Bodies.alarmsAddComponentP c (Bodies.fieldsOf {} none)
+        let (ab, sa, ea, s0, e0, la, sn, par) := f
+        let la := match ackCall with
+          | some v => Alarms_acknowledge_until (dt := Bodies.awareOpt v) (last_ack := la) (localize_utc := id)
+          | none => la
+        let sn := match snoozeCall with
+          | some v => Alarms_snooze_until (dt := Bodies.awareOpt v) (snooze_until_ := sn) (localize_utc := id)
+          | none => sn
+        pure (ab, sa, ea, s0, e0, la, sn, par)
+      match ltz with
+      | none => some (fun w => w, false, f, as)
+      | some tab => some (AlarmP.lookup tab, true, f, as)
+    | _, _, _, _, _ => none
+  | _ => none
+
+private def encTrigO' : Option Trig → String
+  | none => "-"
+  | some t => AlarmP.encTrig t
+
+private def idxs (as xs : List VAlarm) : String := ",".intercalate (xs.map (fun a => toString (as.idxOf a)))
+
 def handleBodiesAlarmTimes (op : String) (args : List String) : Option String :=
   match op, args with
   | "body_al_times", args =>
-    AlarmP.withState args fun loc s as =>
-      match Bodies.timesP loc s with
-      | .ok ts => "ok" ++ String.join (ts.map (fun x => "|" ++ encTup as x))
-      | .error e => pyExcName e
+    -- the conditions under which the hand model's op answers `unmodelled` / `bad-args` are those of `al_times`
+    match AlarmP.withState args (fun _ _ _ => "go"), stateOf args with
+    | some "go", some (loc, tz, f, as) =>
+      match f >>= Bodies.timesF loc tz with
+      | .ok ts => some ("ok" ++ String.join (ts.map (fun x => "|" ++ encTup as x)))
+      | .error e => some (pyExcName e)
+    | r, _ => r
+  | "body_al_state", args =>
+    match AlarmP.withState args (fun _ _ _ => "go"), stateOf args with
+    | some "go", some (_, _, f, as) =>
+      match f with
+      | .ok (ab, sa, ea, s0, e0, la, sn, _) =>
+        some ("ok " ++ idxs as ab ++ ";" ++ idxs as sa ++ ";" ++ idxs as ea ++ ";" ++ encTrigO' s0 ++ ";" ++ encTrigO' e0 ++ ";" ++
+          encOptTrigI la ++ ";" ++ encOptTrigI sn)
+      | .error e => some (pyExcName e)
+    | r, _ => r
   | _, _ => none
 
 end ICal.Driver
